@@ -171,6 +171,73 @@ inline void longNumbers(Ctx& C, uint64_t& dontCare, std::map<std::string, uint64
   }
 }
 
+// every byte value substituted for, and inserted before, every position of a few accepted texts that together contain every
+// syntactic position (inside strings and keys, around separators, inside numbers and literals, in comments when enabled)
+inline void byteMutations(Ctx& C, uint64_t& dontCare, std::map<std::string, uint64_t>& zones, uint64_t& total) {
+  std::string cfg = cfgTag();
+  std::vector<std::string> bases = {"{\"ab\":[1,-2.5e3,true,null],\"c\":\"d\\n\\u0041e\"}", "[ \"x\" , 'y' , {k:false} ]", " {\"a\" : { \"b\" : [ ] } } ", "\"plain\"",
+                                    "[1.0,0,-1e-2]", "{'a':'b'}"};
+#if ARDUINOJSON_ENABLE_COMMENTS
+  bases.push_back("/*c*/[1,//d\n2]/**/");
+  bases.push_back("{//x\n\"a\"/*y*/:/*z*/1}");
+#endif
+#if ARDUINOJSON_ENABLE_NAN
+  bases.push_back("[NaN,1]");
+#endif
+#if ARDUINOJSON_ENABLE_INFINITY
+  bases.push_back("[-Infinity,Infinity]");
+#endif
+  for (size_t bi = 0; bi < bases.size(); bi++) {
+    const std::string& base = bases[bi];
+    for (size_t pos = 0; pos <= base.size(); pos++) {
+      for (int mode = 0; mode < 2; mode++) {  // 0 substitute, 1 insert
+        if (mode == 0 && pos == base.size()) continue;
+        for (int v = 1; v < 256; v++) {
+          if (mode == 0 && (unsigned char)base[pos] == v) continue;
+          if (!C.take()) continue;
+          std::string text = base;
+          if (mode == 0) text[pos] = char(v);
+          else text.insert(text.begin() + long(pos), char(v));
+          C.begin("in:json:" + vis(text) + "|cfg=" + cfg + "|alphabet=byte-" + (mode ? "insert" : "subst"));
+          total++;
+          uint64_t before = dontCare;
+          judge(C, text, 10, dontCare, zones);
+          if (dontCare == before) C.nontrivial();
+          C.end();
+        }
+      }
+    }
+  }
+}
+
+// unquoted keys: every string <= 3 over characters at the edges of the identifier class, as the key of {<key>:1}
+inline void keyAlphabet(Ctx& C, uint64_t& dontCare, std::map<std::string, uint64_t>& zones, uint64_t& total) {
+  std::string cfg = cfgTag();
+  const std::string chars = std::string("aZ9_$-.`@ ") + char(0x7f) + char(0xc3) + char(0x01);
+  for (int n = 1; n <= 3; n++) {
+    std::vector<size_t> idx(size_t(n), 0);
+    for (;;) {
+      if (C.take()) {
+        std::string body;
+        for (size_t k : idx) body.push_back(chars[k]);
+        for (const char* ctx : {"{%s:1}", "{%s :1}", "[{a:1,%s:2}]"}) {
+          std::string text = ctx;
+          text.replace(text.find("%s"), 2, body);
+          C.begin("in:json:" + vis(text) + "|cfg=" + cfg + "|alphabet=key");
+          total++;
+          uint64_t before = dontCare;
+          judge(C, text, 10, dontCare, zones);
+          if (dontCare == before) C.nontrivial();
+          C.end();
+        }
+      }
+      int k = n - 1;
+      while (k >= 0 && ++idx[size_t(k)] == chars.size()) idx[size_t(k--)] = 0;
+      if (k < 0) break;
+    }
+  }
+}
+
 inline void run(Ctx& C) {
   int nFull = atoi(C.opt("full", "3").c_str()), nCore = atoi(C.opt("core", "5").c_str());
   uint64_t dontCare = 0, total = 0;
@@ -181,12 +248,14 @@ inline void run(Ctx& C) {
   int nMicro = atoi(C.opt("micro", "6").c_str());
   microAlphabets(C, nMicro, dontCare, zones, total);
   longNumbers(C, dontCare, zones, total);
+  byteMutations(C, dontCare, zones, total);
+  keyAlphabet(C, dontCare, zones, total);
   C.metrics["sequences"] += double(total);
   C.metrics["dontcare_verdicts"] += double(dontCare);
   for (auto& kv : zones) C.metrics["zone:" + kv.first] += double(kv.second);
   // outcome histogram is expensive per case; summarise by zone instead
   C.bound("all token sequences of length <= " + std::to_string(nFull) + " over the " + std::to_string(full.size()) + "-token alphabet and length <= " +
           std::to_string(nCore) + " over the " + std::to_string(core.size()) + "-token core, nesting limits 10, 2 and 1; all strings of length <= " + std::to_string(nMicro) +
-          " over three character-level micro-alphabets (comment: / * a 1 LF ]; string: \" ' \\ u 0 a; number: 1 0 . e - +) at top level and inside an array; build " + cfgTag());
+          " over three character-level micro-alphabets (comment: / * a 1 LF ]; string: \" ' \\ u 0 a; number: 1 0 . e - +) at top level and inside an array; every byte value substituted at / inserted before every position of 6..10 accepted texts; every unquoted key <= 3 over 13 identifier-edge characters; build " + cfgTag());
 }
 }  // namespace ix_dialect
